@@ -90,6 +90,8 @@ fn build_arg(items: &[Sx]) -> Arg {
             "global" => a.global(true),
             "hide" => a.hide(true),
             "required" => a.required(true),
+            // conflicts_with_all: only the zsh generator reads it (exclusion lists)
+            "cx" => a.conflicts_with_all(l.iter().map(|x| s(x)).collect::<Vec<String>>()),
             h => panic!("spec: unknown arg item {h}"),
         };
     }
